@@ -122,9 +122,13 @@ func findCommentBlockFolds(content string) []protocol.FoldingRange {
 		startLine := i
 		endLine := i
 
+		// an indented comment line belongs to the entry above it, a comment line at the margin
+		// does not: a block is made of lines of one kind, otherwise it would straddle the end
+		// of a transaction or directive
+		indented := isIndentedLine(lines[i])
 		for j := i + 1; j < len(lines); j++ {
 			nextLine := strings.TrimSpace(lines[j])
-			if strings.HasPrefix(nextLine, ";") || strings.HasPrefix(nextLine, "#") {
+			if (strings.HasPrefix(nextLine, ";") || strings.HasPrefix(nextLine, "#")) && isIndentedLine(lines[j]) == indented {
 				endLine = j
 			} else {
 				break
@@ -143,4 +147,8 @@ func findCommentBlockFolds(content string) []protocol.FoldingRange {
 	}
 
 	return ranges
+}
+
+func isIndentedLine(line string) bool {
+	return strings.HasPrefix(line, " ") || strings.HasPrefix(line, "\t")
 }
